@@ -293,19 +293,9 @@ theorem step_sim : ∀ (it : It) {c₁ c₂ : Ctx}, Sim c₁ c₂ → SRel (step
     | panic m => simp [SRel]
   | .mk rest (.endInner ls), c₁, c₂, h => by
     simp only [step]
-    cases hg : c₁.get ls.var with
-    | none => simp [SRel]
-    | some v =>
-      have h2 := h.get_le _ _ hg
-      simp only [h2]
-      cases v with
-      | val prev =>
-        simp only
-        split
-        · exact ⟨_, rfl, h.set _ _⟩
-        · exact ⟨_, rfl, h.popFrame⟩
-      | z => simp [SRel]
-      | x => simp [SRel]
+    split
+    · exact ⟨_, rfl, h.set _ _⟩
+    · exact ⟨_, rfl, h.popFrame⟩
   | .mk rest (.startWhile ws), c₁, c₂, h => by
     have he := evalE_sim ws.cond h
     simp only [step]
